@@ -79,7 +79,7 @@ PredefName(cfg, c, id) ==
        ELSE IF all # {} THEN (CHOOSE e \in all : TRUE).n
        ELSE "?none"
 \* predefined names of the alphabets / generators that are wildcard filters (TLC cannot scan a string)
-WildPredefNames == {"w/#", "w/+", "a/+", "a/#", "#", "+"}
+WildPredefNames == {"w/#", "w/+", "a/+", "a/#", "#", "+", "+/b"}
 PredefHas(cfg, c, id) == \E e \in Range(cfg.predef) : e.id = id /\ e.c \in {c, "*"}
 PredefIds(cfg, c, n) == {id \in {e.id : e \in Range(cfg.predef)} : PredefHas(cfg, c, id) /\ PredefName(cfg, c, id) = n}
 
